@@ -258,14 +258,16 @@ def load_known(pid):
         return []
     return [k for k in d.get('known', []) if k.get('property') == pid]
 
+OUT = os.environ.get('VERIF_SCRATCH') or VERIF     # mutation runs write their replays/evidence elsewhere
+
 def write_replay(pid, body):
-    d = os.path.join(VERIF, 'replays', pid)
+    d = os.path.join(OUT, 'replays', pid)
     os.makedirs(d, exist_ok=True)
     h = hashlib.sha1(json.dumps(body, sort_keys=True).encode()).hexdigest()[:12]
     p = os.path.join(d, h + '.json')
     json.dump(body, open(p, 'w'), indent=1)
-    return os.path.relpath(p, VERIF)
+    return os.path.relpath(p, VERIF) if OUT == VERIF else p
 
 def write_evidence(pid, ev):
-    os.makedirs(os.path.join(VERIF, 'evidence'), exist_ok=True)
-    json.dump(ev, open(os.path.join(VERIF, 'evidence', pid + '.json'), 'w'), indent=1)
+    os.makedirs(os.path.join(OUT, 'evidence'), exist_ok=True)
+    json.dump(ev, open(os.path.join(OUT, 'evidence', pid + '.json'), 'w'), indent=1)
